@@ -2,7 +2,7 @@
 import re
 from collections import defaultdict
 
-from .engine import Fn, op_place, field_steps, const_int, AnchorMissing
+from .engine import Fn, op_place, field_steps, const_int, AnchorMissing, resolve_upvars
 
 
 # ------------------------------------------------------------------ helpers
@@ -599,9 +599,10 @@ def atom_param_fields(atoms):
     return out
 
 
-def call_pairs(fn, callee_pat, deep=True):
+def call_pairs(fn, callee_pat, deep=True, with_closures=False):
     """For each non-cleanup call matching callee_pat with >= 2 args:
-    (bb, line, recv {(param, fields)}, arg {(param, fields)})"""
+    (bb, line, recv {(param, fields)}, arg {(param, fields)}).  With with_closures the closures defined inside fn are
+    scanned too (captured variables resolved to the enclosing function's origins); their rows carry bb = (closure, bb)."""
     out = []
     og = fn.origins()
     for bb in fn.call_sites(callee_pat):
@@ -611,6 +612,26 @@ def call_pairs(fn, callee_pat, deep=True):
         ra = atom_param_fields(og.of_operand(t["args"][0], deep=deep))
         aa = atom_param_fields(og.of_operand(t["args"][1], deep=deep))
         out.append((bb, t.get("line", 0), ra, aa))
+    if with_closures:
+        for cid in fn.prog.closures_in(fn.id):
+            c = fn.prog.fns[cid]
+            cog = c.origins()
+            for bb in c.call_sites(callee_pat):
+                t = c.blocks[bb]["t"]
+                if len(t["args"]) < 2:
+                    continue
+                # resolve up to the outermost enclosing function
+                def up(atoms, f=c):
+                    cur, g = atoms, f
+                    while g.is_closure():
+                        cur = resolve_upvars(g, cur, deep)
+                        g = fn.prog.fns.get(g.rec.get("parent"))
+                        if g is None:
+                            break
+                    return cur
+                ra = atom_param_fields(up(cog.of_operand(t["args"][0], deep=deep)))
+                aa = atom_param_fields(up(cog.of_operand(t["args"][1], deep=deep)))
+                out.append(((cid, bb), t.get("line", 0), ra, aa))
     return out
 
 
